@@ -209,11 +209,11 @@ pub struct BCounters {
 pub fn check_c05(s: &str, sink: &Sink, c: &BCounters, family: &str) {
     c.strings.fetch_add(1, AO::Relaxed);
     // a different history first: a sibling text (same version, other build metadata / spelling)
-    if s.len() < 40 {
+    let d = recognise(s);
+    if s.len() < 40 && d.is_some() {
         let _ = guarded(|| Version::parse(format!("{}+zz.9", s)).map(|v| v.to_string()));
         let _ = guarded(|| Version::parse(format!("v{}", s)).map(|v| v.to_string()));
     }
-    let d = recognise(s);
     let case = || json!({"engine":"B","kind":"version","input":s});
     let got = match guarded(|| Version::parse(s)) {
         Ok(r) => r,
@@ -421,7 +421,8 @@ fn snap(c: &BCounters) -> BTreeMap<String, u64> {
 
 pub fn run_c05(tier: &str, sink: &Sink) -> BOut {
     let c = BCounters::default();
-    let n = n_for(tier, 'v');
+    // the language check is the cheapest monitor: one symbol deeper than the other walks in thorough
+    let n = if tier == "thorough" { 9 } else { n_for(tier, 'v') };
     walk(&SIGMA_V, n, |s| check_c05(s, sink, &c, "sigma"));
     let syms = edit_symbols();
     let seeds: Vec<&str> = SEEDS.to_vec();
